@@ -11,10 +11,10 @@ import (
 
 func init() {
 	register(&propCheck{
-		id:    "C09",
-		level: "other",
-		explanation: "Static decision of the cancellation discipline, which is entirely shape. Scope X: the exported functions and methods of packages filesystem (except the lock file) and safeio that take a context and return an error. A gate on a context is parallelisation.DetermineContextError(c) / c.Err() whose failing side is an error exit, a call handing c to a function that is itself gate-first with its error leading to an error exit (or being returned), or a transfer whose stream operand is one of the contextual wrappers. (A1) entry: in every member of X no path from the entry reaches a mutating backend effect or a non-error return without passing a gate (argument-validation exits returning a fresh error are accepted); (A2) loops: in every function of these packages that carries a context, every cyclic path through a backend access passes a gate, loop combinators (Parallelise, walk callbacks) putting the obligation on the function passed; (A3) recursion: every call-graph cycle through context-carrying functions that touches the backend contains a gate-first function; (A4) in safeio, raw io.Reader/io.Writer parameters of context-accepting functions are used only through the contextual wrappers (or handed to functions checked the same way); (A5) ReadFileContent refuses with 'too large' before reading when limits apply and Stat succeeded, and bounds the read by the same maximum; (A6) no context.Background()/TODO() is created inside a context-carrying function outside deferred clean-up. Decided on SSA with a package effect summary and a gate-first fixpoint; nothing is executed. Not decided: exactness of prefixes (io.CopyN / io.LimitReader semantics, arbitrary reader/writer behaviour), error kinds of third-party readers, the number 'small' itself (it is the accesses of one loop-free iteration prefix).",
-		run:   runC09,
+		id:              "C09",
+		level:           "other",
+		explanation:     "Static decision of the cancellation discipline, which is entirely shape. Scope X: the exported functions and methods of packages filesystem (except the lock file) and safeio that take a context and return an error. A gate on a context is parallelisation.DetermineContextError(c) / c.Err() whose failing side is an error exit, a call handing c to a function that is itself gate-first with its error leading to an error exit (or being returned), or a transfer whose stream operand is one of the contextual wrappers. (A1) entry: in every member of X no path from the entry reaches a mutating backend effect or a non-error return without passing a gate (argument-validation exits returning a fresh error are accepted); (A2) loops: in every function of these packages that carries a context, every cyclic path through a backend access passes a gate, loop combinators (Parallelise, walk callbacks) putting the obligation on the function passed; (A3) recursion: every call-graph cycle through context-carrying functions that touches the backend contains a gate-first function; (A4) in safeio, raw io.Reader/io.Writer parameters of context-accepting functions are used only through the contextual wrappers (or handed to functions checked the same way); (A5) ReadFileContent refuses with 'too large' before reading when limits apply and Stat succeeded, and bounds the read by the same maximum; (A6) no context.Background()/TODO() is created inside a context-carrying function outside deferred clean-up. Decided on SSA with a package effect summary and a gate-first fixpoint; nothing is executed. Not decided: exactness of prefixes (io.CopyN / io.LimitReader semantics, arbitrary reader/writer behaviour), error kinds of third-party readers, the number 'small' itself (it is the accesses of one loop-free iteration prefix).",
+		run:             runC09,
 		thoroughConfigs: []string{"darwin/amd64", "windows/amd64"},
 		assumptions: []string{
 			"contextio.NewReader/NewWriter test the context before every Read/Write (library contract)",
